@@ -121,8 +121,11 @@ AwaitR == /\ Idle /\ cont = "awaitR"
              \/ ctx /\ U(slotR) /\ Go(ClosedEarly("running", TRUE), "exit")
           /\ U(<<slotD, slotE, availD, availE, availR, nProv, cancelledFlag, closedFlag, cpc, refused>>)
           /\ U(<<ctx, conn, exec, execRes, sigNil, sigQ, resQ, wg, plugin>>) /\ U(Rest1)
+\* Before anything is started the step looks at its context once more (engine repair cbe5b25: a stop condition or a close
+\* that arrived together with the run input takes precedence over it): cancelled, it leaves as closed, the starting stage failed.
 ReadSchema == /\ Idle /\ cont = "readSchema"
               /\ \/ Go(StartFailedScript, "exit") /\ U(<<exec, wg, plugin>>)
+                 \/ ctx /\ Go(ClosedEarly("running", TRUE), "exit") /\ U(<<exec, wg, plugin>>)
                  \/ /\ wg' = wg + 1 /\ exec' = "running" /\ plugin' = "working"
                     /\ Go(<<Set("running", "running"), SC("running", "started")>>, "awaitRes")
               /\ U(StepLocal) /\ U(<<ctx, conn, execRes, sigNil, sigQ, resQ>>) /\ U(Rest1)
